@@ -1,6 +1,6 @@
 (* finite obligations on the regenerated inventory (re-checked on every run against the current source) *)
 From Coq Require Import ZArith List Bool String.
-From RV Require Import Base.Wire Base.Text Lang.Order Gen.SetSites Lang.OrderSites.
+From RV Require Import Base.Wire Base.Text Lang.Order Lang.DevSession Proofs.DevSessionP Gen.SetSites Lang.OrderSites.
 Import ListNotations.
 Open Scope Z_scope.
 
@@ -52,3 +52,40 @@ Qed.
 
 Lemma no_ambient_calls : ambient_calls = [].
 Proof. vm_compute. reflexivity. Qed.
+
+(* ---------------------------------------------------------------- module-level mutable objects never escape *)
+Lemma module_uses_accounted_b : forallb muse_accounted module_uses = true.
+Proof. vm_compute. reflexivity. Qed.
+
+Lemma module_uses_accounted : forall u, In u module_uses -> u_class u <> 0 -> u_name u = hook_log /\ u_class u = 2.
+Proof.
+  intros u Hu Hc. pose proof module_uses_accounted_b as H. rewrite forallb_forall in H. specialize (H u Hu).
+  unfold muse_accounted in H. apply orb_true_iff in H as [H|H].
+  - apply Z.eqb_eq in H. contradiction.
+  - apply andb_true_iff in H as [H1 H2]. split; [apply text_eqb_eq; exact H1 | apply Z.eqb_eq; exact H2].
+Qed.
+
+Lemma default_sites_accounted_b : forallb dsite_accounted default_sites = true.
+Proof. vm_compute. reflexivity. Qed.
+
+Lemma default_sites_accounted : forall d, In d default_sites -> d_class d <> 2.
+Proof.
+  intros d Hd. pose proof default_sites_accounted_b as H. rewrite forallb_forall in H. specialize (H d Hd).
+  unfold dsite_accounted in H. apply negb_true_iff in H. apply Z.eqb_neq. exact H.
+Qed.
+
+Lemma preseeded_fresh_b : forallb preseed_accounted ctx_preseeded = true.
+Proof. vm_compute. reflexivity. Qed.
+
+Lemma preseeded_fresh : forall e, In e ctx_preseeded -> snd e = true.
+Proof.
+  intros e He. pose proof preseeded_fresh_b as H. rewrite forallb_forall in H. exact (H e He).
+Qed.
+
+(* the configuration read off the current source is inside the guard of the statelessness theorem *)
+Lemma cfg_gen_ok : cfg_ok cfg_gen = true.
+Proof. vm_compute. reflexivity. Qed.
+
+Lemma session_stateless_current_source : forall ms before p after,
+  nth_error (dsession cfg_gen ms (before ++ p :: after)) (List.length before) = Some (transl_dev p).
+Proof. intros ms before p after. apply dsession_stateless. exact cfg_gen_ok. Qed.
